@@ -14,7 +14,7 @@ COQ_MODULE = "Corr.C17"
 SHARD = 100
 EXHAUSTIVE = True
 RULE = ("EXHAUSTIVE: every sequence of length <= 4 (quick) / <= 5 (thorough) over {set driver (alternating two drivers), "
-        "set_prms (alternating two parameter sets, scalar and per-cohort), compute, read the survival table} containing at "
+        "set_prms (alternating two parameter sets, scalar and per-cohort; in a third of the histories one driver is all zero), compute, read the survival table} containing at "
         "least one compute, on InflowDrivenDSM and StockDrivenDSM (manual, lapack), on a unit and an uneven grid, with FixedLifetime "
         "(library class, exact 0/1 survival; parameters above every interval length); additionally the same sequences on a stock built by make_empty_stocks inside an MFASystem subclass "
         "whose compute() is looped. After every compute the results are compared with the model and (oracle) with a freshly "
@@ -39,6 +39,11 @@ def generate(tier, rng):
                     continue
                 prms = [[9, 12, 20][k % 3], dict(dims=["t"], values=[[20, 9, 12, 33][(k + i) % 4] for i in range(n)]), [20, 9, 12][k % 3]]
                 drvs = [[rng.randint(1, 9) for _ in range(n)], [rng.randint(1, 9) for _ in range(n)], [rng.randint(1, 9) for _ in range(n)]]
+                if k % 3 == 1:
+                    # a phase-out scenario: the driver set to exactly zero after a computation with a non-zero one
+                    drvs[1 + (k // 3) % 2] = [0] * n
+                elif k % 3 == 2 and k % 2:
+                    drvs[1] = [0] * (n - 1) + [rng.randint(1, 9)]
                 cases.append(dict(stream="history", gname=gname, grid=grid, cls=cls, solver=solver, seq="".join(s), prms=prms, drvs=drvs,
                                   at=["start", "middle", "end"][k % 3], n_pts=1 + (k % 2), in_system=(k % 5 == 0)))
     # parameter sets that differ by very little (a finite-difference step; a mean nudged across a cohort age): the new
